@@ -122,7 +122,7 @@ func (e *Engine) leaves(t types.Type) []Leaf {
 	if isTimeType(t) || t == mathIntT {
 		return []Leaf{{"", "Int", t, lkTime}}
 	}
-	if t == byteStreamT {
+	if t == byteStreamT || t == u32StreamT {
 		return []Leaf{{"", "(Array Int Int)", t, lkTime}}
 	}
 	switch u := t.Underlying().(type) {
@@ -182,7 +182,7 @@ func (e *Engine) leaves(t types.Type) []Leaf {
 
 // flatten an SV of type t into its leaf terms.
 func (e *Engine) flatten(t types.Type, v SV) []string {
-	if isTimeType(t) || t == mathIntT || t == byteStreamT {
+	if isTimeType(t) || t == mathIntT || t == byteStreamT || t == u32StreamT {
 		return []string{v.(*Sc).T}
 	}
 	switch u := t.Underlying().(type) {
@@ -261,7 +261,7 @@ func (e *Engine) ptrTerm(v SV) string {
 
 // unflatten builds an SV of type t from leaf terms; returns remaining terms.
 func (e *Engine) unflatten(t types.Type, ts []string) (SV, []string) {
-	if isTimeType(t) || t == mathIntT || t == byteStreamT {
+	if isTimeType(t) || t == mathIntT || t == byteStreamT || t == u32StreamT {
 		return &Sc{ts[0]}, ts[1:]
 	}
 	switch u := t.Underlying().(type) {
